@@ -3,7 +3,7 @@ import ast
 
 from .. import alg, fitmodel as fm
 from ..alg import Poly, P, B, C, sym, sum_over, lt, mk_fn
-from ..interp import Interp, Hooks, Arr, Obj, Unk, symarr, scalar, num
+from ..interp import Interp, Hooks, Arr, Obj, Unk, symarr, scalar, num, decide_with, count_atom
 from ..fitmodel import W, loc, compare
 from ..rules import getstate_keys
 from ..astutil import up
@@ -28,13 +28,21 @@ VOCAB = {'av', 'sc', 'chi2', 'model_name', 'model_fluxes', 'model_id', 'number',
 
 
 class KeepHooks(Hooks):
+    """configuration: the ranked result is empty / non-empty (decided on the value of the test: anything that only
+    depends on the number of fits)"""
     def __init__(self, empty):
         self.empty = empty
+        self.consts = {count_atom(R): 0 if empty else 10 ** 6}
 
     def decide(self, interp, test, env, mod):
-        t = up(test).replace(' ', '')
-        if t in ('len(self.chi2)==0', 'self.n_fits==0', 'len(self.chi2)<1', 'notlen(self.chi2)'):
-            return self.empty
+        try:
+            v = interp.expr(test, dict(env), mod)
+        except Exception:
+            return None
+        if isinstance(v, Arr) and v.ndim == 0 and not v.poly.is_const():
+            syms, fns = alg.leaf_syms(v.poly)
+            if not syms and fns <= {'len'}:
+                return decide_with(interp, test, env, mod, consts=self.consts)
         return None
 
 
